@@ -786,6 +786,20 @@ fn c16_keyword_runs(cfg: &Config, ex: &Explorer) -> Report {
             }
         }
     }
+    // every ASCII letter as the first and as a later character of a name, in every position where
+    // a name is recognised by a predicate of its own (a character-class table with one wrong bit
+    // shows for one letter in one case only)
+    for c in b'A'..=b'Z' {
+        let c = c as char;
+        for w in [format!("{c}Q"), format!("Q{c}"), format!("{c}")] {
+            for host in [
+                "%macro {}; %mend;", "%macro m({}=1); %mend;", "%macro m(a,{}); %mend;", "%let {}=1;", "x=&{};", "x=&{}.y;", "%{}(1);", "%let x=%{}(1);", "{}=1;",
+                "%{}: %put a;", "x=${}8.;", "format x {}8.2;", "%m({}=1)", "%do {}=1 %to 2; %end;", "%global {};", "%goto {};", "%symdel {};", "x='a'n.{};", "%m({})",
+            ] {
+                add(host, &w);
+            }
+        }
+    }
     for m in ["EQ", "NE", "LT", "LE", "GT", "GE", "AND", "OR", "NOT", "IN"] {
         add("%if a {} b %then %put c;", m);
         add("%eval(1 {} 2)", m);
@@ -918,6 +932,12 @@ thread_local! {
 
 pub fn closed_prefix(src: &str, r: &LexResult) -> bool {
     if !(is_closed(r) || BY_GRAMMAR.with(std::cell::Cell::get) && r.errors.is_empty()) || src.is_empty() {
+        return false;
+    }
+    // an in-stream data block that the lexer itself reports as unterminated reaches to the end of
+    // the input: whatever follows is more data, not a new statement (the `;` it may end in is a
+    // fragment of the terminator, not a consumed statement end)
+    if r.errors.iter().any(|e| e.error_kind() == sas_lexer::error::ErrorKind::UnterminatedDatalines) {
         return false;
     }
     let infos: Vec<_> = r.buffer.iter_tokens_infos().collect();
@@ -1221,7 +1241,7 @@ fn c15_run(cfg: &Config) -> PropRun {
     // fragment, every built-in argument position) are closed prefixes as well
     // (they are many: paired with the short continuations only, step 2c)
     let mut a2_list: Vec<String> = Vec::new();
-    for p in crate::grammar::rare_programs("") {
+    for p in crate::grammar::rare_statement_programs() {
         if let Outcome::Ok(r) = run_lexer(&p) {
             if closed_prefix_by_grammar(&p, &r) {
                 a2_list.push(p);
@@ -1516,7 +1536,11 @@ pub fn run_property(prop: &'static str, cfg: &Config) -> PropRun {
         "C01" | "C02" | "C03" | "C04" | "C05" | "C06" | "C07" | "C09" | "C10" => structural(prop, cfg),
         "C17" => {
             let ex = Explorer::new(cfg.threads, cfg.cap_s, if cfg.tier == Tier::Quick { 28 } else { 33 });
-            let sp = filter_spaces(cfg, spaces::sigma_spaces(&["S1", "S2", "S3", "S4", "S5", "S7", "S8", "S9", "seeded"], cfg.tier));
+            let mut sp = spaces::sigma_spaces(&["S1", "S2", "S3", "S4", "S5", "S7", "S8", "S9", "seeded"], cfg.tier);
+            // the payload templates (quoted and hex literals whose bytes spell text in some encoding):
+            // a byte-order mark must not change how a payload is decoded
+            sp.extend(crate::templates::t7_spaces(cfg.tier));
+            let sp = filter_spaces(cfg, sp);
             // (the targeted list first: a time cap then cuts the bulk enumeration, not this)
             let mut early: Option<Report> = None;
             if cfg.only_spaces.is_empty() {
@@ -1597,6 +1621,8 @@ pub fn run_property(prop: &'static str, cfg: &Config) -> PropRun {
             let mut sp = spaces::sigma_spaces(&["S1", "S2", "S4", "dl"], cfg.tier);
             sp.extend(spaces::shrink(spaces::sigma_spaces(&["S3", "S5", "S9"], cfg.tier), 1));
             let sp = filter_spaces(cfg, sp);
+            // (the keyword / name-letter tables first, the bulk enumeration after them)
+            let kw_report = if cfg.only_spaces.is_empty() { Some(c16_keyword_runs(cfg, &ex)) } else { None };
             let mut report = ex.run(
                 &sp,
                 |local: &mut Local, node: &Node| {
@@ -1619,8 +1645,10 @@ pub fn run_property(prop: &'static str, cfg: &Config) -> PropRun {
                 },
                 cfg_of,
             );
+            if let Some(k) = kw_report {
+                report.absorb(k);
+            }
             if cfg.only_spaces.is_empty() {
-                report.absorb(c16_keyword_runs(cfg, &ex));
                 // generated programs: every statement and built-in of the construct grammar
                 let mut progs = crate::grammar::programs(2, false);
                 progs.extend(crate::grammar::rare_programs(" "));
